@@ -39,6 +39,8 @@ type stubAgent struct {
 	slots   []string
 	cert    *x509.Certificate
 	fwdFail bool
+	// smartcard: requests 20 / 21 / 26 get the success or failure octet of an ssh-agent instead of the echo
+	smartcard bool
 }
 
 func (s *stubAgent) rec(c call) error {
@@ -95,6 +97,13 @@ func (s *stubAgent) Extension(typ string, contents []byte) ([]byte, error) {
 }
 
 func (s *stubAgent) Forward(req []byte) ([]byte, error) {
+	if s.smartcard && len(req) > 0 && (req[0] == 20 || req[0] == 21 || req[0] == 26) {
+		// smartcard requests are answered as an ssh-agent answers them: success or failure octet
+		if err := s.rec(call{Op: "forward", Data: bytes.Clone(req)}); err != nil {
+			return []byte{5}, nil
+		}
+		return []byte{6}, nil
+	}
 	if err := s.rec(call{Op: "forward", Data: bytes.Clone(req)}); err != nil {
 		return nil, err
 	}
